@@ -115,7 +115,7 @@ type c13bPlan struct {
 	labels   []string
 	features map[string]bool
 	multiDay bool // revolut2: some date carries assertions in several currencies
-	split    []string // revolut2: the same statement cut at a day boundary into two complete statement files
+	split    []string // revolut2, com.wise: the rows of the statement dealt out by whole days over two complete statement files
 }
 
 func c13bCents(v int64) *big.Rat { return new(big.Rat).SetFrac64(v, 100) }
@@ -416,6 +416,7 @@ func c13bPlanRevolut2(c C13BCase) *c13bPlan {
 func c13bPlanWise(c C13BCase) *c13bPlan {
 	p := &c13bPlan{cmd: "com.wise", args: []string{"--account", c13bAcct, "--fee", c13bFee, "--trading", c13bTrading}}
 	var lines []string
+	var lineDays []ref.Day
 	day := c.Base
 	for i, r := range c.Rows {
 		if i > 0 {
@@ -467,6 +468,7 @@ func c13bPlanWise(c C13BCase) *c13bPlan {
 		}
 		p.text(r.T1, r.T2)
 		lines = append(lines, c13bCSV(",", id, status, dir, created, finished, feeAmt, feeCur, "", "", c.Name, src, r.Cur, r.T1, tgt, tgtCur, rate, r.T2, ""))
+		lineDays = append(lineDays, day)
 	}
 	p.text(c.Name)
 	var sb strings.Builder
@@ -481,6 +483,42 @@ func c13bPlanWise(c C13BCase) *c13bPlan {
 		}
 	}
 	p.stmt = sb.String()
+	// com.wise takes several files (one export per currency balance, say): whole days are dealt out over two files so
+	// that the second file's days lie strictly inside the first one's period whenever there are three days or more
+	// (with two days the second file extends the period instead)
+	var days []ref.Day
+	for _, d := range lineDays {
+		if len(days) == 0 || days[len(days)-1] != d {
+			days = append(days, d)
+		}
+	}
+	if len(days) >= 2 {
+		inB := map[ref.Day]bool{}
+		for i, d := range days {
+			if i%2 == 1 && (i < len(days)-1 || len(days) == 2) {
+				inB[d] = true
+			}
+		}
+		header := p.stmt[:strings.Index(p.stmt, "\n")+1]
+		fa, fb := header, header
+		emit := func(i int) {
+			if inB[lineDays[i]] {
+				fb += lines[i]
+			} else {
+				fa += lines[i]
+			}
+		}
+		if c.Reverse {
+			for i := len(lines) - 1; i >= 0; i-- {
+				emit(i)
+			}
+		} else {
+			for i := range lines {
+				emit(i)
+			}
+		}
+		p.split = []string{fa, fb}
+	}
 	return p
 }
 
@@ -878,7 +916,7 @@ func checkC13B(c C13BCase) (o Outcome) {
 			return fail(V("crash", "knut %v: %s", margs, rm.Brief()))
 		}
 		if rm.Exit != 0 || rm.Stdout != T {
-			return fail(V("multi-file-differs", "knut %v (the statement cut into two files at a day boundary) exits %d and prints\n%s\n--the one-file import prints--\n%s\n--a.csv--\n%s\n--b.csv--\n%s",
+			return fail(V("multi-file-differs", "knut %v (the rows of the statement dealt out over two files by whole days) exits %d and prints\n%s\n--the one-file import prints--\n%s\n--a.csv--\n%s\n--b.csv--\n%s",
 				margs, rm.Exit, clip(rm.Stdout, 1500), clip(T, 1500), clip(p.split[0], 1200), clip(p.split[1], 1200)))
 		}
 	}
